@@ -233,7 +233,9 @@ IN_LINE_LOOP = CURSOR + OPENED + ["self.markup_start < self.line_start and self.
                                   "nest_stop(self.line_statements) <= self.line_start",
                                   "len(self.line_space) >= len(self.line_statements) + 1", "nest_stop(self.expression) <= self.start"]
 IN_BLOCK_COMMENT = ["self.start <= self.pos and self.pos <= len(self.source)"] + OPENED + ["len(self.expression) == 0"] + NO_LINES
-ERR_INSIDE = {"LiquidSyntaxError": ["0 <= exc.token.index and exc.token.index <= len(self.source)"]}
+# every position an error carries lies inside the source (an error raised without a token carries no position:
+# Lexer.backup() at the very end of the input)
+ERR_INSIDE = {"LiquidSyntaxError": ["exc.token is None or (0 <= exc.token.index and exc.token.index <= len(self.source))"]}
 
 
 def _conj(cl):
@@ -265,7 +267,7 @@ def state_contract(name, wc, post, loops=None, regex_total=None):
         loops=loops or {},
         post=post,
         post_exc=ERR_INSIDE,
-        raises={"LiquidSyntaxError": None},
+        raises={"LiquidSyntaxError": None, "LiquidValueError": None},
         returns=ANY_STATE,
         modifies=STATE_MODIFIES,
         regex_total=regex_total or {},
@@ -314,7 +316,7 @@ contract(
     # of every state) up to its last character
     post=["last_stop(self.markup) == len(self.source)"],
     post_exc=ERR_INSIDE,
-    raises={"LiquidSyntaxError": None},
+    raises={"LiquidSyntaxError": None, "LiquidValueError": None},
 )
 
 # ---- small cursor helpers ------------------------------------------------------------------------------
@@ -359,8 +361,8 @@ contract(
         "implies(not result, self.pos == old(self.pos) and self.start == old(self.start) and nest_stop(expression) == old(nest_stop(expression)))",
         "implies(result, self.start == self.pos and self.pos > old(self.pos) and self.pos <= len(self.source) and nest_stop(expression) <= self.pos)",
     ],
-    post_exc={"LiquidSyntaxError": ["0 <= exc.token.index and exc.token.index <= len(self.source)"]},
-    raises={"LiquidSyntaxError": None},
+    post_exc=ERR_INSIDE,
+    raises={"LiquidSyntaxError": None, "LiquidValueError": None},
     modifies=["self.pos", "self.start", "self.in_range", "self.path_stack", "expression"],
     returns=Bool,
     obj_fields=TOK_FIELDS,
@@ -380,28 +382,93 @@ contract(
     pre=ACCEPT_PRE,
     post=ACCEPT_FRAME + ["self.start == self.pos", "self.pos > old(self.pos)", "self.pos <= len(self.source)", "nest_stop(expression) <= self.pos"],
     post_exc=ERR_INSIDE,
-    raises={"LiquidSyntaxError": None},
+    raises={"LiquidSyntaxError": None, "LiquidValueError": None},
     modifies=SCAN_MOD,
     assumed="nested scanning loops with recursion into accept_token; contract checked at run time by the thorough tier only",
 )
 
+# ---- ghost abstraction of the path stack: its depth and its top element (the only one the lexer reads) ---------------
+def _pst_top(ex, lst):
+    return lst.state["top"]
+
+
+def _pst_fresh_top(ex, lst, name):
+    """The element below a popped one / the top after a loop havoc: an opaque PathToken; the bottom element's start is fixed."""
+    from pyvc.values import ClassRef
+    tm = ex.repo.module("liquid2.token")
+    cref = ClassRef("PathToken", tm, tm.classes["PathToken"])
+    st = ex.fresh(f"{name}.start", "int")
+    ex.assume(z3.Implies(lst.state["count"] == 1, st.t == lst.state["lo"]))
+    return HObj(cref, {"type_": ex.fresh(f"{name}.type", "any"), "path": HSpecList(f"{name}.path", {"append": lambda ex_, l, a, k: None}, {}),   # segments collected so far: write-only here
+                       "start": st, "stop": ex.fresh(f"{name}.stop", "int"), "source": ex.fresh(f"{name}.source", "str")})
+
+
+def _pst_append(ex, lst, args, kw):
+    (tok,) = args
+    if z3.is_int_value(z3.simplify(lst.state["count"])) and z3.simplify(lst.state["count"]).as_long() == 0:
+        lst.state["lo"] = ex.to_int_term(ex.getattr(tok, "start"))
+    lst.state["count"] = lst.state["count"] + 1
+    lst.state["top"] = tok
+    return None
+
+
+def _pst_pop(ex, lst, args, kw):
+    ex.require(lst.state["count"] > 0, "IndexError", "pop from empty list")
+    tok = lst.state["top"]
+    lst.state["count"] = lst.state["count"] - 1
+    lst.state["top"] = _pst_fresh_top(ex, lst, "below")
+    return tok
+
+
+def _pst_getitem(ex, lst, args, kw):
+    (key,) = args
+    if key != -1:
+        raise Unsupported("path stack is read at index -1 only")
+    ex.require(lst.state["count"] > 0, "IndexError", "list index out of range")
+    return lst.state["top"]
+
+
+def _pst_len(ex, lst, args, kw):
+    return SInt(lst.state["count"])
+
+
+def _pst_havoc(ex, lst):
+    ex.assume(lst.state["count"] >= 0)
+    lst.state["top"] = _pst_fresh_top(ex, lst, "top")
+
+
+def PSTACK(ex, name):
+    """The path stack at entry of accept_path: empty (accept_token pops the finished path before it scans on)."""
+    return HSpecList(name, {"append": _pst_append, "pop": _pst_pop, "__getitem__": _pst_getitem, "__len__": _pst_len, "havoc": _pst_havoc},
+                     {"count": z3.IntVal(0), "lo": z3.IntVal(0), "n": z3.IntVal(0), "top": None})
+
+
 contract(
     "liquid2.lexer:Lexer.accept_path",
-    props=["C17", "C02"],
-    params={"self": Shared("lexer_self", LEXER(wc=WC1, **LISTS)), "carry": Union(TrueT, FalseT)},
+    props=["C17", "C02", "C11"],
+    params={"self": Shared("lexer_self", LEXER(wc=WC1, **dict(LISTS, path_stack=Opaque(PSTACK, "pstack")))), "carry": Union(TrueT, FalseT)},
+    globals_={"MAX_STR_INT": Int},           # liquid2.limits.MAX_STR_INT, any value (to_int is inlined: its limit check is part of this proof)
+    inline=["liquid2.limits:to_int"],
     pre=SCAN_PRE + ["implies(not carry, self.start == self.pos and self.pos < len(self.source) and self.source[self.pos] == '[')"],
+    loops={0: {"inv": ["self.start == self.pos", "0 <= self.pos and self.pos <= len(self.source)", "self.pos >= old(self.pos)",
+                       "implies(not carry, self.pos > old(self.pos) or len(self.path_stack) == 1)",
+                       "len(self.path_stack) >= 1",
+                       # the path on top of the stack ends exactly at the cursor as soon as it has a segment of its own
+                       "self.path_stack[-1].stop == -1 or self.path_stack[-1].stop == self.pos",
+                       "implies(len(self.path_stack) == 1, self.path_stack[-1].start == old(self.start))",
+                       "implies(not carry and self.pos == old(self.pos), self.path_stack[-1].stop == -1)"],
+                "dec": "len(self.source) - self.pos"}},
     post=ACCEPT_FRAME + [
         "self.start == self.pos", "self.pos >= old(self.pos)", "self.pos <= len(self.source)",
         "implies(not carry, self.pos > old(self.pos))",   # a bracketed path consumes at least its opening bracket
-        # the finished path is on top of the path stack, its span lies between the old start and the cursor
-        "len(self.path_stack) == old(len(self.path_stack)) + 1",
+        # the finished path is alone on the stack and spans exactly [old start, cursor): the reported variable, nothing more, nothing less
+        "len(self.path_stack) == 1",
         "self.path_stack[-1].start == old(self.start)",
-        "self.path_stack[-1].start <= self.path_stack[-1].stop and self.path_stack[-1].stop <= self.pos",
+        "self.path_stack[-1].stop == self.pos",
     ],
     post_exc=ERR_INSIDE,
-    raises={"LiquidSyntaxError": None},
+    raises={"LiquidSyntaxError": None, "LiquidValueError": None},   # LiquidValueError: an index with more digits than the conversion limit
     modifies=["self.pos", "self.start", "self.path_stack"],
-    assumed="path-stack manipulation over aliased heap objects; contract checked at run time by the thorough tier only",
 )
 
 contract(
